@@ -240,6 +240,19 @@ def bias_case(ctx, rng):
   if q.shape != want.shape or np.any(ok & (np.abs(q - want) > tol)):
     ctx.violation('law:bias_not_round_of_bias_over_scale', {'in_bits': in_bits, 'per_axis': per_axis},
                   dict(ctx.sample, got=q[:4].tolist(), want=want[:4].tolist()))
+  # Round trip of the (32- or 64-bit) bias codes: dequantize(quantize(b)) is within half a step of b.  64-bit codes routinely
+  # exceed 2^31 here (int16 activations with a tiny effective scale), which no 4/8/16-bit sweep reaches; the uniform_dequantize
+  # contract additionally compares the call with the wide-integer reference.
+  if q.shape == want.shape and np.all(ok):
+    deq = np.asarray(u.uniform_dequantize(np.asarray(r.quantized_data), r), dtype=np.float64).reshape(-1)
+    ctx.count('bias_roundtrips')
+    if np.any(np.abs(q) >= 2.0 ** 31):
+      ctx.count('bias_roundtrips_beyond_int32')
+    step = eff if eff.size == n else np.full(n, eff[0])
+    rt_tol = step * tol + np.abs(bias.astype(np.float64)) * 1e-5
+    if deq.shape != want.shape or np.any(np.abs(deq - bias.astype(np.float64)) > rt_tol):
+      ctx.violation('law:bias_roundtrip_exceeds_half_step', {'in_bits': in_bits, 'per_axis': per_axis},
+                    dict(ctx.sample, bias=bias[:4].tolist(), dequantized=deq[:4].tolist(), codes=q[:4].tolist()))
   _report_contracts(ctx)
   return {}
 
